@@ -60,6 +60,10 @@ def _mk_wallet(case, tag):
     else:
         hk = HDKey.from_seed(seed, network=net, witness_type=wt)
         w = Wallet.create('w', keys=hk, network=net, witness_type=wt, db_uri=uri, anti_fee_sniping=wc['afs'])
+        if wc.get('second_account'):
+            # the transactions are made from a second account of the wallet (same network), named in every request
+            acc = w.new_account()
+            w._verif_nk = {'network': net, 'account_id': acc.account_id}
     return w, path
 
 
@@ -496,6 +500,8 @@ def _strategy(ctx):
                   'm': m, 'n': n, 'afs': testnet and draw(st.booleans())}
         if default_net:
             wallet['default_net'] = default_net
+        elif kind == 'hd' and draw(st.integers(0, 3)) == 0:
+            wallet['second_account'] = True
         dust = raddr.NETWORKS[net]['dust_amount']
         scale = 100000 if net.startswith('dogecoin') else 1
         value = st.one_of(st.sampled_from([dust - 1, dust, dust + 1, 5000 * scale, 5000 * scale, 100000 * scale,
